@@ -11,6 +11,7 @@ import (
 	"reflect"
 	"sort"
 	"strings"
+	"sync"
 	"sync/atomic"
 	"time"
 
@@ -32,7 +33,8 @@ func classes(msg string) string {
 		set["unused"] = true
 	}
 	if has("expected type") || has("unconvertible type") || has("expected a map") || has("must be an array or slice") ||
-		has("needs a map with string keys") || has("overflows uint") || has("unexpected config type") {
+		has("needs a map with string keys") || has("overflows uint") || has("unexpected config type") ||
+		has("number is not an integer") {
 		set["type"] = true
 	}
 	if has("plugin type expected") || has("has non-string value") || has("too many type keys") {
@@ -144,20 +146,75 @@ func runDecode(root string, cfg any) (obs string) {
 }
 
 func setupEnv() {
-	for k, v := range envTable {
-		_ = os.Setenv(k, v)
-	}
 	_ = os.Unsetenv("C17_UNSET")
-	_ = os.MkdirAll(filepath.Dir(propFile), 0o755)
-	var b strings.Builder
-	b.WriteString("# written by the C17 driver\n")
-	for _, k := range sortedKeys(propTable) {
-		b.WriteString(k + "=" + propTable[k] + "\n")
+	_ = os.MkdirAll(propDir, 0o755)
+	_ = os.Remove(filepath.Join(propDir, "absent.properties"))
+	applyEnv(envTable)
+	ensurePropFile(stdProps.path, stdProps.lines)
+}
+
+func applyEnv(m map[string]string) {
+	for k, v := range m {
+		if strings.HasPrefix(k, "C17_") && k != "C17_UNSET" {
+			if cur, ok := os.LookupEnv(k); !ok || cur != v {
+				_ = os.Setenv(k, v)
+			}
+		}
 	}
-	tmp := fmt.Sprintf("%s.%d.tmp", propFile, os.Getpid())
-	_ = os.WriteFile(tmp, []byte(b.String()), 0o644)
-	_ = os.Rename(tmp, propFile)
-	_ = os.Remove(filepath.Join(filepath.Dir(propFile), "absent.properties"))
+}
+
+var propFilesDone sync.Map
+
+// ensurePropFile writes a properties file named by an input (only below the scratch directory, written once, atomically)
+func ensurePropFile(path string, lines []string) {
+	if filepath.Dir(path) != propDir || !strings.HasSuffix(path, ".properties") {
+		return
+	}
+	content := strings.Join(lines, "\n") + "\n"
+	if len(lines) == 0 {
+		content = ""
+	}
+	if _, ok := propFilesDone.Load(path + "\x00" + content); ok {
+		return
+	}
+	if cur, err := os.ReadFile(path); err != nil || string(cur) != content {
+		tmp := fmt.Sprintf("%s.%d.%d.tmp", path, os.Getpid(), atomic.AddInt64(&cliSeq, 1))
+		_ = os.WriteFile(tmp, []byte(content), 0o644)
+		_ = os.Rename(tmp, path)
+	}
+	propFilesDone.Store(path+"\x00"+content, true)
+}
+
+// applyInput: the environment variables and properties files an input line names
+func applyInput(kv map[string]string) {
+	if t, err := parseTerm(kv["env"]); err == nil && t.name == "m" {
+		m := map[string]string{}
+		for i := 0; i+1 < len(t.args); i += 2 {
+			v := ""
+			if len(t.args[i+1].args) == 1 {
+				v = t.args[i+1].args[0].name
+			}
+			m[t.args[i].name] = v
+		}
+		applyEnv(m)
+	}
+	if t, err := parseTerm(kv["props"]); err == nil && t.name == "m" {
+		for i := 0; i+1 < len(t.args); i += 2 {
+			f := t.args[i+1]
+			if f.name != "l" {
+				continue
+			}
+			var lines []string
+			for _, a := range f.args {
+				l := ""
+				if len(a.args) == 1 {
+					l = a.args[0].name
+				}
+				lines = append(lines, l)
+			}
+			ensurePropFile(t.args[i].name, lines)
+		}
+	}
 }
 
 func run(input string) string {
@@ -171,6 +228,7 @@ func run(input string) string {
 		return "BADINPUT " + err.Error()
 	}
 	root := dec(kv["root"])
+	applyInput(kv)
 	// the schema the model runs on: dumped from the real types of THIS tree, pruned to what cfg can reach
 	t, d := rootTarget(root)
 	sch := " sch=" + schemaOf(t, d.Elem(), []any{cfg})
